@@ -109,7 +109,7 @@ def emitted_head(repo, fields):
 
     def probe(ex_, env_):
         return ex_.ev(call.args[1], env_)
-    ex = Explorer(f, atom_of=atom_of, inline_depth=3, tracked=attrs)
+    ex = Explorer(f, atom_of=atom_of, inline_depth=3, tracked=attrs, bind_defaults=True)
     outs = ex.run(g.entry, env, probes={node.id: ("head", probe)})
     vals = set(v for o in outs for (k, v) in o.events if isinstance((k, v), tuple) and k == "head")
     if len(vals) != 1:
